@@ -44,7 +44,7 @@ def check(pid, tier, replay=None):
         'the 16 configurations are compared on the sequential histories of C01/C02 (incl. scans followed by removals on the OLC index); '
         'concurrent executions are covered by C03/C09/C14',
     ]
-    proof_stage(res, [], ['Properties/Properties_C16.v'], pid)
+    proof_stage(res, ['asserts'], ['Properties/Properties_C16.v', 'Properties/Properties_C16b.v'], pid)
     res.coverage['trusted_base'] = TRUSTED_COMMON + [
         'extraction: ExtrOcamlBasic only; ocaml/art_run.ml',
         'harness/seq_diff.cpp compiled 16 times with g++ -O1 and the configuration macros / -mavx2 or -msse4.1',
